@@ -324,12 +324,25 @@ def h_bool_or(vf, node, fn, args):
 
 @reg('SELECT', 'num_traits::Float::min', 'std::cmp::Ord::min')
 def h_min(vf, node, fn, args):
-    return T.app('min', *sorted([tt(vf, a) for a in args], key=T.key))
+    a, b = [tt(vf, x) for x in args][:2]
+    if str(node.get('ty', '')) in ('usize', 'u64', 'u32', 'u16', 'u8'):
+        # unsigned integers: decided where the order is visible (`n_discard.min(n_collect + n_discard)` is n_discard)
+        if known_le(vf, a, b):
+            return a
+        if known_le(vf, b, a):
+            return b
+    return T.app('min', *sorted([a, b], key=T.key))
 
 
 @reg('SELECT', 'num_traits::Float::max', 'std::cmp::Ord::max')
 def h_max(vf, node, fn, args):
-    return T.app('max', *sorted([tt(vf, a) for a in args], key=T.key))
+    a, b = [tt(vf, x) for x in args][:2]
+    if str(node.get('ty', '')) in ('usize', 'u64', 'u32', 'u16', 'u8'):
+        if known_le(vf, a, b):
+            return b
+        if known_le(vf, b, a):
+            return a
+    return T.app('max', *sorted([a, b], key=T.key))
 
 
 @reg('SELECT', 'burn::tensor::Tensor::mask_where')
